@@ -313,3 +313,27 @@ Proof.
   - eapply follow_sound; eauto.
   - apply alias_spec_none_dangling; auto.
 Qed.
+
+(* a metafield is reached through a chain of aliases of any length: if p is an
+   alias whose ultimate target is T and T/sub is a field, the code p/sub names it *)
+Theorem lookup_subfield_through_alias_chain : forall ents p sub P t T E,
+  (match p with c :: _ => (c =? cDOT) = false | [] => True end) ->
+  split_first cSLASH p = None ->
+  find_field (p ++ cSLASH :: sub) ents = None ->
+  find_field p ents = Some P -> e_kind P = EAlias t -> alias_spec ents t = Some T ->
+  find_field (T ++ cSLASH :: sub) ents = Some E -> is_alias E = false ->
+  lookup_code ents (p ++ cSLASH :: sub) = Some (e_name E).
+Proof.
+  intros ents p sub P t T E Hd Hs Hn HP HK HT HE HA.
+  unfold lookup_code. rewrite Hn.
+  assert (Hdd : drop_dot (p ++ cSLASH :: sub) = p ++ cSLASH :: sub).
+  { destruct p as [|c r]; simpl in *.
+    - destruct sub; reflexivity.
+    - destruct r; simpl; rewrite Hd; reflexivity. }
+  rewrite Hdd.
+  assert (Hsp : forall a b, split_first cSLASH a = None -> split_first cSLASH (a ++ cSLASH :: b) = Some (a, b)).
+  { induction a; simpl; intros. reflexivity.
+    destruct (a =? cSLASH); try discriminate.
+    destruct (split_first cSLASH a0) as [[x y]|] eqn:Q; try discriminate. rewrite IHa; auto. }
+  rewrite Hsp; auto. rewrite HP, HK, HT, HE. unfold dealias, is_alias in *. destruct (e_kind E); auto; discriminate.
+Qed.
